@@ -9,6 +9,8 @@ pub mod c06;
 pub mod c07;
 pub mod c08;
 pub mod c09;
+pub mod c10;
+pub mod c11;
 pub mod c12;
 
 pub fn run(prop: &str, cfg: &Cfg, rep: &mut Report) -> bool {
@@ -21,6 +23,8 @@ pub fn run(prop: &str, cfg: &Cfg, rep: &mut Report) -> bool {
         "C07" => c07::run(cfg, rep),
         "C08" => c08::run(cfg, rep),
         "C09" => c09::run(cfg, rep),
+        "C10" => c10::run(cfg, rep),
+        "C11" => c11::run(cfg, rep),
         "C12" => c12::run(cfg, rep),
         _ => return false,
     }
